@@ -67,6 +67,8 @@ ObsMatches ==
   \/ Bad([prop |-> "C18", kind |-> "kb-getter", comp |-> Comp, access |-> G[i].access,
           ctx |-> <<fs, ss, es>>, observed |-> G[i].obs, expected |-> <<ImEMods(es), ImEMode(es)>>])
 
+AllProps == LET r == << Conforms, ObsMatches >> IN \A j \in 1..Len(r) : r[j]
+
 ASSUME Stats == Note("@@S", [impl_states |-> Len(G), alphabet |-> NA, frame_states |-> Len(FG),
                              scan_states |-> Len(SG), event_states |-> Len(EG)])
 =============================================================================
